@@ -167,6 +167,19 @@ def convex_set(rng, allow_place=True, kinds=("ellipsoid", "ellipsoid", "lattice"
         V = convex_lattice(rng)
     elif kind == "prismatic":
         V = convex_prismatic(rng)
+    elif kind in ("bigprism", "biglattice"):
+        # faces of MANY coplanar triangles at coordinates that are large compared with the shape (5-20 diameters away, or a lattice polytope
+        # blown up by 100 at integer offsets of a few hundred): a prism over a regular n-gon with its axis along z and an arbitrary
+        # translation is exactly planar face by face (constant z / vertical planes through two points), whatever the rounding of cos, sin
+        if kind == "bigprism":
+            n = int(rng.integers(12, 31))
+            ang = 2 * np.pi * np.arange(n) / n + rng.uniform(0, 1)
+            ring = np.c_[np.cos(ang), np.sin(ang)]
+            h = float(rng.choice([0.5, 1.0, 2.0]))
+            V = np.vstack([np.c_[ring, np.zeros(n)], np.c_[ring, np.full(n, h)]]) + rng.uniform(-1, 1, 3) * float(rng.choice([5.0, 10.0, 20.0])) * 2.0
+        else:
+            V = convex_lattice(rng) * 100.0 + np.array([float(x) for x in rng.integers(-900, 901, 3)])
+        allow_place = False
     elif kind == "flat":
         V = convex_ellipsoid(rng) * np.array([1.0, 1.0, 2.0 ** -int(rng.integers(4, 9))])
     else:
